@@ -19,13 +19,17 @@ Oracle, per direction X->Y, once the scheduler has drained everything:
   * received(Y) is a prefix of the accepted writes of X (no corruption, duplication, reordering);
   * it is *equal* when Y never called loseConnection/abort and no transport loss was injected (then
     only X's own loseConnection ends the stream, and everything written before it must arrive);
+  * when both closed, Y gracefully (not the abort-by-design below) and X's own loseConnection() was
+    effective (X was still accepting writes when it called it), everything X wrote before that call
+    must arrive as well: a graceful closer keeps reading until the peer's close_notify;
   * exactly one connectionLost per application, nothing delivered after it;
   * both underlying transports end up closed (disconnecting / aborted / lost);
   * no refused write without cause; nothing logged as a failure.
 
 Latitude / guards against false alarms:
-  * a receiver that closed first gets only the prefix guarantee (bytes still in the peer's write
-    aggregator or in flight when the close_notify arrives are legitimately dropped, as with TCP);
+  * when the receiver closed and the sender's loseConnection() came too late to be effective (or never
+    came), only the prefix guarantee holds: bytes still in the sender's write aggregator or in flight
+    when the receiver's close_notify is processed are legitimately dropped, as with TCP;
   * loseConnection before the side's handshake completed with no byte written is an abort by design
     (tls.py: loseConnection -> abortConnection): prefix guarantee only, in both directions;
   * zero-length writes carry nothing; injected transport loss gives prefix + exactly-once only;
@@ -40,7 +44,9 @@ RULE = ("random sessions from (seed, index): protocol class (buffering/plain) an
         "(0..200 KiB, many > 16 KiB records) issued in connectionMade / during / after the handshake, push and pull "
         "producers, ciphertext cut at arbitrary points (1-byte cuts during the handshake) with random interleaving of "
         "directions, clock ticks, transport backpressure, loseConnection by client / server / both at any step (also "
-        "before and during the handshake), rare transport loss.  Distinct by (configuration, plan, schedule); "
+        "before and during the handshake), rare transport loss; 30 % of the sessions are 'coalesced flights': both "
+        "sides write from connectionMade, one or both close before/while the handshake completes, and every delivery "
+        "hands over the whole pending buffer (Finished + data + close alert in one dataReceived).  Distinct by (configuration, plan, schedule); "
         "non-trivial = the handshake completed on at least one side or a close raced it (counted).")
 ASSUMPTIONS = [
     "pyOpenSSL 23 / OpenSSL 3.0 of the system interpreter is the TLS engine on both sides (trusted)",
@@ -51,7 +57,10 @@ ASSUMPTIONS = [
 SHARDS = {"quick": 4, "thorough": 16}
 FLOORS = {"sessions_handshake_done": 1000, "bytes_compared": 20000000, "writes_before_handshake": 500, "close_before_handshake": 100,
           "close_before_handshake_with_data": 100, "close_during_transfer": 500, "complete_directions_checked": 1000,
-          "producer_sessions": 500, "records_over_16k": 1000}
+          "producer_sessions": 500, "records_over_16k": 1000,
+          # coalesced-flights family and the equality demanded although the receiver closed as well
+          "coalesced_sessions": 500, "coalesced_both_closed_around_handshake_with_data": 150,
+          "complete_demanded_receiver_closed_too": 400, "complete_demanded_sender_closed_before_handshake": 300}
 READY = True
 # Writes made after the writer's own loseConnection() (legal while its producer is registered) are outside the
 # statement ("the bytes the peer wrote before its loseConnection").  Their loss is counted, not judged.
@@ -158,6 +167,8 @@ class Side:
         self.accepted_len = 0
         self.accepted_before_close = None  # accepted_len at the moment this side called loseConnection
         self.close_called = False
+        self.close_effective = False
+        self.hs_at_close = False
         self.close_was_abort = False
         self.close_mark = None  # len(transport.written) when loseConnection was first called
         self.peer_close_seen = False  # bytes beyond the peer's close_mark were delivered to us
@@ -214,8 +225,12 @@ class Side:
         if self.close_called or self.lost:
             return False
         self.close_called = True
+        # "effective": the layer was still accepting writes when the application asked to close, i.e. this side had
+        # not yet processed the peer's close and its transport was up -- its close is a real TLS shutdown of its own
+        self.close_effective = self.accepts() and self.lost == 0
         self.accepted_before_close = self.accepted_len
         self.producer_at_close = self.registered
+        self.hs_at_close = self.hs
         self.close_mark = len(self.tls.transport.written)
         if not self.hs and self.accepted_len == 0:
             self.close_was_abort = True  # tls.py: loseConnection before the handshake with nothing buffered aborts
@@ -335,6 +350,21 @@ class Session:
         for s in ("a", "b"):
             if self.closer in (s, "both"):
                 self.close_at[s] = rng.choice([0, 1, 2, 3]) if rng.random() < 0.25 else rng.randint(0, nsteps)
+        # "coalesced flights" family: both sides write from connectionMade, closes come before / while the handshake
+        # completes, and every delivery hands over the whole pending buffer (a Finished message, application data and a
+        # close alert arrive in ONE dataReceived call)
+        self.coalesced = rng.random() < 0.3
+        if self.coalesced:
+            for side in (self.a, self.b):
+                if side.early == 0 or not side.plan or not any(side.plan[:side.early]):
+                    side.plan.insert(0, rng.choice([1, 47, 1000, 16384, 20000, 70000]))
+                    side.early = max(1, side.early)
+            self.closer = rng.choice(["a", "b", "both", "both"])
+            for s in ("a", "b"):
+                self.close_at[s] = rng.choice([0, 0, 1, 2, 4]) if self.closer in (s, "both") else None
+            self.params = {"client": dict(self.a.describe(), tls=self.ver_c, plain=self.plain["a"]),
+                           "server": dict(self.b.describe(), tls=self.ver_s, plain=self.plain["b"])}
+        self.params["coalesced"] = self.coalesced
         self.nsteps = nsteps
         self.lose_at = rng.randint(0, nsteps) if rng.random() < 0.04 else None
         self.params.update(closer=self.closer, close_at=self.close_at, steps=nsteps, inject_loss_at=self.lose_at)
@@ -400,6 +430,8 @@ class Session:
 
     def piece(self):
         rng = self.rng
+        if self.coalesced:
+            return None
         hs = not (self.a.hs and self.b.hs)
         r = rng.random()
         if hs and r < 0.3:
@@ -521,6 +553,10 @@ class Session:
             ctx.count("sessions_handshake_done")
         if a.producer or b.producer:
             ctx.count("producer_sessions")
+        if self.coalesced:
+            ctx.count("coalesced_sessions")
+            if a.close_called and b.close_called and not (a.close_was_abort or b.close_was_abort) and not (a.hs_at_close and b.hs_at_close):
+                ctx.count("coalesced_both_closed_around_handshake_with_data")
         ctx.seen("tls_versions", "%s/%s" % (self.ver_c, self.ver_s))
         if a.hs or b.hs or a.close_called or b.close_called:
             ctx.distinct((self.i, repr(self.params), repr(self.steps)))
@@ -537,7 +573,21 @@ class Session:
                 key = "more-bytes-than-written" if j >= len(expected) else "stream-corrupted"
                 ctx.violation(key, "bytes delivered to an application are not a prefix of what its peer wrote", dict(wit, detail=info))
                 continue
-            must_be_complete = not y.close_called and not self.injected_loss and not x.close_was_abort
+            excused = self.injected_loss or x.close_was_abort or y.close_was_abort
+            if not excused and y.close_called and x.close_called and x.close_effective:
+                # Both closed (the receiver gracefully: it had bytes buffered or its handshake was done, so it keeps reading
+                # until the sender's close_notify).  What the sender wrote before its own, effective, loseConnection()
+                # still has to arrive: "each application receives exactly the bytes the peer wrote before its loseConnection".
+                ctx.count("complete_demanded_receiver_closed_too")
+                if not x.hs_at_close:
+                    ctx.count("complete_demanded_sender_closed_before_handshake")
+                if len(got) < x.accepted_before_close:
+                    info.update(missing_from=len(got), accepted_before_own_close=x.accepted_before_close,
+                                sender_handshake_done_at_close=x.hs_at_close, receiver_abort=y.close_was_abort)
+                    ctx.violation("bytes-lost-before-close", "both sides closed gracefully, yet an application did not get every byte its "
+                                  "peer wrote before the peer's own loseConnection", dict(wit, detail=info))
+                continue
+            must_be_complete = not y.close_called and not excused
             if must_be_complete:
                 ctx.count("complete_directions_checked")
                 if len(got) != len(expected):
